@@ -1,5 +1,4 @@
 """Driver: build, fan out workers, supervise, minimise, write evidence (DESIGN.md section 2)."""
-import array
 import concurrent.futures as cf
 import hashlib
 import json
@@ -192,7 +191,7 @@ class JobResult:
         self.faults = {}
         self.reach = {}
         self.probes = {}
-        self.cover = set()
+        self.cover_count = 0
         self.samples = []
         self.violations = []   # dicts: property, oracle, api, detail, plan (text), index
         self.digests = {}
@@ -217,6 +216,7 @@ def run_job_config(job, cfg, binary, seed, tier, want_digests):
                           os.path.join(WORK, "cover-%s-%d" % (tag, j))) for j in range(W)]
         all_results = [f.result() for f in futs]
     jr.wall = time.time() - t0
+    cover_files = []
     for results in all_results:
         for out in results:
             s = out["summary"]
@@ -231,14 +231,8 @@ def run_job_config(job, cfg, binary, seed, tier, want_digests):
                 _acc(jr.probes, s["probes"])
                 if len(jr.samples) < 4:
                     jr.samples.extend(s["samples"][:1])
-            try:
-                a = array.array("Q")
-                with open(out["cover_path"], "rb") as f:
-                    a.frombytes(f.read())
-                jr.cover.update(a)
-                os.unlink(out["cover_path"])
-            except FileNotFoundError:
-                pass
+            if os.path.exists(out["cover_path"]):
+                cover_files.append(out["cover_path"])
             for v in out["violations"]:
                 d = dict(v["violation"])
                 d["index"] = v["index"]
@@ -254,6 +248,17 @@ def run_job_config(job, cfg, binary, seed, tier, want_digests):
                     oracle="signal-%d" % ft["sig"], api=job.scenario, step=ft["step"],
                     detail="worker died with %s at step %d" % (SIG_NAMES.get(ft["sig"], ft["sig"]), ft["step"]),
                     index=ft["run"], plan=plan, cfg=cfg))
+    if cover_files:
+        p = subprocess.run([binary, "merge-cover"] + cover_files, stdout=subprocess.PIPE, text=True)
+        try:
+            jr.cover_count = int(p.stdout.strip())
+        except ValueError:
+            jr.cover_count = 0
+        for f in cover_files:
+            try:
+                os.unlink(f)
+            except OSError:
+                pass
     return jr
 
 
@@ -544,7 +549,7 @@ def write_evidence(prop, tier, seed, level, coverage, assumptions, wall, nviol):
 
 def coverage_from_jobs(results, extra=None, count_steps=False):
     evaluations = sum((r.steps if count_steps else r.runs) for r in results)
-    distinct = sum(len(r.cover) for r in results)
+    distinct = sum(r.cover_count for r in results)
     steps = sum(r.steps for r in results)
     wall = sum(r.wall for r in results) or 1e-9
     faults, reach, probes = {}, {}, {}
@@ -570,7 +575,7 @@ def coverage_from_jobs(results, extra=None, count_steps=False):
         faults_fired=faults,
         reach_probes=reach,
         library_probes=probes,
-        jobs=[dict(scenario=r.job.scenario, config=r.cfg, runs=r.runs, steps=r.steps, distinct=len(r.cover),
+        jobs=[dict(scenario=r.job.scenario, config=r.cfg, runs=r.runs, steps=r.steps, distinct=r.cover_count,
                    wall_s=round(r.wall, 2), note=r.job.note) for r in results],
         zero_probes=sorted([k for k, v in reach.items() if v == 0]),
     )
@@ -895,7 +900,7 @@ def check_property(prop, tier, seed):
         for cfg in job.configs:
             jr = run_job_config(job, cfg, binaries[cfg], seed, tier, multi)
             log("[run] %s/%s: %d runs, %d steps, %d distinct, %.1fs, %d violating" % (
-                job.scenario, cfg, jr.runs, jr.steps, len(jr.cover), jr.wall, len(jr.violations)))
+                job.scenario, cfg, jr.runs, jr.steps, jr.cover_count, jr.wall, len(jr.violations)))
             per_cfg.append(jr)
             results.append(jr)
             viols.extend(jr.violations)
